@@ -136,3 +136,164 @@ Proof.
     destruct (fst (readPtr strict m rl sid s paddr depth)) eqn:E; try exact I.
     rewrite (H2 a eq_refl). lia.
 Qed.
+
+(* a result and remaining budget that respect the accounting, starting from budget rl *)
+Definition charged (rl : Z) (x : res Ptr * Z) : Prop :=
+  0 <= snd x <= rl /\ match fst x with Ok p => snd x + readSize p = rl | _ => True end.
+
+Lemma struct_ptr_charge c m rl p i : 0 <= rl -> charged rl (struct_ptr c m rl p i).
+Proof.
+  intros Hr. unfold struct_ptr, charged. dif.
+  - cbn [fst snd]. rewrite readSize_null. lia.
+  - apply readPtr_charge. assumption.
+Qed.
+Lemma ptrlist_at_charge c fu m rl p i : 0 <= rl -> charged rl (ptrlist_at c fu m rl p i).
+Proof.
+  intros Hr. unfold ptrlist_at, charged. destruct (primitiveElem _ _ _ _).
+  - apply readPtr_charge. assumption.
+  - cbn [fst snd]. lia.
+  - cbn [fst snd]. lia.
+Qed.
+Lemma root_charge c m rl : 0 <= rl -> charged rl (root c m rl).
+Proof.
+  intros Hr. unfold root, charged. destruct (lookup_segment m 0); try (cbn [fst snd]; lia).
+  dif.
+  - cbn [fst snd]. destruct (cfg_root c); lia.
+  - apply readPtr_charge. assumption.
+Qed.
+
+(* ------------------------------------------------------------------ the walker threads the budget *)
+Lemma iter_rl_mono {A} (f : Z -> Z -> A * Z) : forall n i rl,
+  (forall j rl0, 0 <= rl0 -> 0 <= snd (f j rl0) <= rl0) -> 0 <= rl ->
+  0 <= snd (iter_rl n i rl f) <= rl.
+Proof.
+  induction n as [|n IH]; intros i rl H Hr; cbn [iter_rl]; [cbn; lia|].
+  pose proof (H i rl Hr) as H1. destruct (f i rl) as [a rl1]. cbn [snd] in H1.
+  specialize (IH (i + 1) rl1 H ltac:(lia)).
+  destruct (iter_rl n (i + 1) rl1 f) as [r rl2]. cbn [snd] in *. lia.
+Qed.
+
+Lemma walk_rl_mono c fx m dcap pcap : forall fuel rl r, 0 <= rl ->
+  0 <= snd (walk c fx m dcap pcap fuel rl r) <= rl.
+Proof.
+  induction fuel as [|f IH]; intros rl r Hr.
+  - destruct r as [p| |]; cbn [walk]; [destruct (p_valid p)|..]; cbn; lia.
+  - destruct r as [p| |]; cbn [walk]; [|cbn; lia|cbn; lia].
+    destruct (p_valid p); cbn [negb]; [|cbn; lia].
+    destruct (p_kind p).
+    + destruct (collect _ _ _); [|cbn; lia|cbn; lia].
+      match goal with |- context [iter_rl ?n ?i ?rl ?g] =>
+        pose proof (iter_rl_mono g n i rl) as Hit; destruct (iter_rl n i rl g) as [ps rl'] end.
+      cbn [snd] in *. apply Hit; [|assumption]. intros j rl0 H0.
+      pose proof (struct_ptr_charge c m rl0 p j H0) as [Hc _].
+      destruct (struct_ptr c m rl0 p j) as [q rl1]. cbn [snd] in Hc.
+      specialize (IH rl1 q ltac:(lia)). lia.
+    + cbv zeta. destruct (p_bit p); [destruct (collect _ _ _); cbn; lia|].
+      destruct (p_comp p).
+      { match goal with |- context [iter_rl ?n ?i ?rl ?g] =>
+          pose proof (iter_rl_mono g n i rl) as Hit; destruct (iter_rl n i rl g) as [ps rl'] end.
+        cbn [snd] in *. apply Hit; [|assumption]. intros j rl0 H0. apply IH. assumption. }
+      destruct (0 <? PointerCount (p_size p)).
+      { match goal with |- context [iter_rl ?n ?i ?rl ?g] =>
+          pose proof (iter_rl_mono g n i rl) as Hit; destruct (iter_rl n i rl g) as [ps rl'] end.
+        cbn [snd] in *. apply Hit; [|assumption]. intros j rl0 H0.
+        pose proof (ptrlist_at_charge c (fx_upgrade fx) m rl0 p j H0) as [Hc _].
+        destruct (ptrlist_at c (fx_upgrade fx) m rl0 p j) as [q rl1]. cbn [snd] in Hc.
+        specialize (IH rl1 q ltac:(lia)). lia. }
+      destruct (_ =? 0); [cbn; lia|]. destruct (collect _ _ _); cbn; lia.
+    + cbn; lia.
+Qed.
+
+(* ------------------------------------------------------------------ op lists *)
+(* the read size handed out by one op: Root / Struct.Ptr / PointerList.At that succeeded *)
+Definition handed (o : op) (v : oval) : Z :=
+  match o, v with
+  | ORoot, VPtr (Ok p) | OSPtr _ _, VPtr (Ok p) | OPLAt _ _, VPtr (Ok p) => readSize p
+  | _, _ => 0
+  end.
+
+Fixpoint handed_sum (ops : list op) (vs : list oval) : Z :=
+  match ops, vs with
+  | o :: ops', v :: vs' => handed o v + handed_sum ops' vs'
+  | _, _ => 0
+  end.
+
+Lemma step_charge c fx m st o : 0 <= rs_rl st ->
+  0 <= rs_rl (fst (step c fx m st o)) /\
+  rs_rl (fst (step c fx m st o)) + handed o (snd (step c fx m st o)) <= rs_rl st.
+Proof.
+  intros Hr. destruct o; cbn [step]; try (cbn [fst snd handed push rs_rl]; lia).
+  - pose proof (root_charge c m (rs_rl st) Hr) as [H1 H2].
+    destruct (root c m (rs_rl st)) as [r rl]. cbn [fst snd push rs_rl handed] in *.
+    destruct r; lia.
+  - pose proof (struct_ptr_charge c m (rs_rl st) (as_struct (handle st h)) i Hr) as [H1 H2].
+    destruct (struct_ptr _ _ _ _ _) as [r rl]. cbn [fst snd push rs_rl handed] in *.
+    destruct r; lia.
+  - pose proof (ptrlist_at_charge c (fx_upgrade fx) m (rs_rl st) (as_list (handle st h)) i Hr) as [H1 H2].
+    destruct (ptrlist_at _ _ _ _ _ _) as [r rl]. cbn [fst snd push rs_rl handed] in *.
+    destruct r; lia.
+  - pose proof (walk_rl_mono c fx m dcap pcap (Z.to_nat fuel) (rs_rl st) (Ok (handle st h)) Hr) as H.
+    destruct (walk _ _ _ _ _ _ _ _) as [t rl]. cbn [fst snd rs_rl handed] in *. lia.
+Qed.
+
+Lemma run_charge c fx m : forall ops st, 0 <= rs_rl st ->
+  0 <= rs_rl (fst (run c fx m st ops)) /\
+  rs_rl (fst (run c fx m st ops)) + handed_sum ops (snd (run c fx m st ops)) <= rs_rl st.
+Proof.
+  induction ops as [|o ops IH]; intros st Hr; cbn [run].
+  - cbn. lia.
+  - pose proof (step_charge c fx m st o Hr) as [H1 H2].
+    destruct (step c fx m st o) as [st1 v]. cbn [fst snd] in *.
+    specialize (IH st1 H1). destruct (run c fx m st1 ops) as [st2 vs]. cbn [fst snd handed_sum] in *. lia.
+Qed.
+
+Lemma run_app c fx m : forall a b st,
+  run c fx m st (a ++ b) =
+  (fst (run c fx m (fst (run c fx m st a)) b), snd (run c fx m st a) ++ snd (run c fx m (fst (run c fx m st a)) b)).
+Proof.
+  induction a as [|o a IH]; intros b st; cbn [run app].
+  - cbn. destruct (run c fx m st b). reflexivity.
+  - destruct (step c fx m st o) as [st1 v]. rewrite IH.
+    destruct (run c fx m st1 a) as [st2 vs]. cbn [fst snd]. reflexivity.
+Qed.
+
+Lemma init_rlimit_nonneg c : 0 <= cfg_T c -> 0 <= init_rlimit c.
+Proof. unfold init_rlimit, defaultTraverseLimit. dif; lia. Qed.
+
+(* traversal_bound_seq: for ANY op list (any arguments) on ANY message:
+   (1) the budget never goes negative and never increases along the run,
+   (2) initial budget - final budget >= the sum of the read sizes of all pointers handed out,
+       hence that sum is at most the configured limit,
+   (3) a refused request leaves the budget at 0 (readPtr_limit_spec), after which every
+       request of positive size is refused. *)
+Theorem traversal_bound_seq c fx m ops : 0 <= cfg_T c ->
+  let st := fst (run c fx m (init_state c) ops) in
+  let vs := run_ops c fx m ops in
+  0 <= rs_rl st /\
+  handed_sum ops vs <= init_rlimit c - rs_rl st /\
+  handed_sum ops vs <= init_rlimit c /\
+  (forall ops1 ops2, ops = ops1 ++ ops2 -> rs_rl st <= rs_rl (fst (run c fx m (init_state c) ops1))).
+Proof.
+  intros HT st vs. pose proof (init_rlimit_nonneg c HT) as H0.
+  pose proof (run_charge c fx m ops (init_state c) H0) as [H1 H2].
+  fold st in H1, H2. unfold run_ops in vs. fold (init_state c) in vs. fold vs in H2. cbn [init_state rs_rl] in H2.
+  repeat split; try lia.
+  intros ops1 ops2 ->. subst st. rewrite run_app. cbn [fst].
+  pose proof (run_charge c fx m ops1 (init_state c) H0) as [G1 _].
+  pose proof (run_charge c fx m ops2 _ G1) as [G2 G3].
+  assert (0 <= handed_sum ops2 (snd (run c fx m (fst (run c fx m (init_state c) ops1)) ops2))) as G4.
+  { clear. generalize (snd (run c fx m (fst (run c fx m (init_state c) ops1)) ops2)).
+    induction ops2 as [|o r IH]; intros [|v vs]; cbn [handed_sum]; try lia.
+    specialize (IH vs). assert (0 <= handed o v); [|lia].
+    unfold handed. destruct o; try lia; destruct v; try lia; destruct r0; try lia; apply readSize_nonneg. }
+  lia.
+Qed.
+
+(* once the budget is 0 every dereference of an object of positive read size is refused *)
+Lemma refused_at_zero strict m sid s paddr depth sz :
+  readPtr_request strict m sid s paddr depth = Some sz -> 0 < sz ->
+  readPtr strict m 0 sid s paddr depth = (Err, 0).
+Proof.
+  intros H Hs. pose proof (readPtr_limit_spec strict m 0 sid s paddr depth) as G. rewrite H in G.
+  destruct (0 >=? sz) eqn:E; [lia|exact G].
+Qed.
